@@ -276,13 +276,41 @@ fn fault_space(ctx: &mut Ctx, s: &Sample, p: &mut Prng, idx: &mut u64) {
         }
         probe(ctx, s, &s.id, &t, "c3_zeroed");
     }
+    // C3 changed so that a folded (XOR / sum) comparison cannot see it: two bytes swapped, the same mask on two bytes,
+    // bytes reversed, rotated
+    for k in 0..6u64 {
+        if !mine(ctx) {
+            continue;
+        }
+        let mut t = s.ct.clone();
+        let c3 = &mut t[65..97];
+        let (a, b) = (p.below(32) as usize, p.below(32) as usize);
+        match k {
+            0 => c3.swap(a, (a + 1 + b % 31) % 32),
+            1 | 2 => {
+                let m = 1u8 << p.below(8);
+                c3[a] ^= m;
+                c3[(a + 1 + b % 31) % 32] ^= m;
+            }
+            3 => c3.reverse(),
+            4 => c3.rotate_left(1 + b % 31),
+            _ => {
+                c3[a] = c3[a].wrapping_add(1);
+                let j = (a + 1 + b % 31) % 32;
+                c3[j] = c3[j].wrapping_sub(1);
+            }
+        }
+        if t != s.ct {
+            probe(ctx, s, &s.id, &t, "c3_fold_preserving_change");
+        }
+    }
 }
 
 pub fn run(ctx: &mut Ctx) {
     for (n, ok) in r9::selftest(false) {
         ctx.selftest(&n, ok);
     }
-    ctx.require(&["annex_kat", "len_sweep", "fixed_r_exact", "free_r", "roundtrip", "ref_made_decrypts", "bitflip_pc_byte", "bitflip_c1", "bitflip_c2", "bitflip_c3", "truncated_inside_c1", "truncated_inside_c3", "truncated_body", "id_changed", "c1_zero_zero", "c1_offcurve_y_plus_1", "c1_offcurve_random", "pc_byte_illegal_valid_tag", "c1_other_point", "c1_coordinate_plus_p_alias", "c3_zeroed", "msg_len=255", "msg_len=1", "id_empty", "encryptor_has_public_key_only", "interleaved_keys_decrypt", "k1_all_zero_retry", "ke=H1(id)_doubling_in_QB", "crafted_valid_c1_decrypts", "long_msg_or_id", "kdf_beyond_255_blocks", "id_beyond_2^16_bits", "many_calls_one_process", "id_length_sweep"]);
+    ctx.require(&["annex_kat", "len_sweep", "fixed_r_exact", "free_r", "roundtrip", "ref_made_decrypts", "bitflip_pc_byte", "bitflip_c1", "bitflip_c2", "bitflip_c3", "truncated_inside_c1", "truncated_inside_c3", "truncated_body", "id_changed", "c1_zero_zero", "c1_offcurve_y_plus_1", "c1_offcurve_random", "pc_byte_illegal_valid_tag", "c1_other_point", "c1_coordinate_plus_p_alias", "c3_zeroed", "msg_len=255", "msg_len=1", "id_empty", "encryptor_has_public_key_only", "interleaved_keys_decrypt", "k1_all_zero_retry", "ke=H1(id)_doubling_in_QB", "crafted_valid_c1_decrypts", "long_msg_or_id", "kdf_beyond_255_blocks", "id_beyond_2^16_bits", "many_calls_one_process", "id_length_sweep", "c3_fold_preserving_change", "id_with_nul_bytes"]);
     let pr = r9::params();
     if ctx.shard == 0 {
         let ke = r9::hexn("0001EDEE3778F441F8DEA3D9FA0ACC4E07EE36C93F9A08618AF4AD85CEDE1C22");
@@ -456,6 +484,23 @@ pub fn run(ctx: &mut Ctx) {
         }
     }
     ctx.exhaustive("message lengths 1..=255", true);
+    // --- identities containing NUL bytes, trailing blanks or newlines, non-UTF-8 bytes: an identity is a byte string and is
+    // hashed exactly as given
+    {
+        let mut pl = ctx.prng("nul_ids");
+        for (k, id) in [b"Bob\0".to_vec(), b"\0Bob".to_vec(), b"Bo\0b".to_vec(), vec![0u8], vec![0u8; 4], b"Bob\0\0".to_vec(), b"Bob ".to_vec(), b" Bob".to_vec(), b"Bob\n".to_vec(), vec![0xffu8, 0xfe, 0x80]].iter().enumerate() {
+            let sub = pl.next();
+            if !ctx.mine(k as u64) {
+                continue;
+            }
+            let mut p = Prng::new(sub, "ni");
+            let ke = rand_scalar(&mut p, &(&pr.n - 1u32));
+            let r = rand_scalar(&mut p, &(&pr.n - 1u32));
+            let msg = p.bytes(21);
+            ctx.class("id_with_nul_bytes");
+            enc_case(ctx, &ke, id, &msg, Some(&r), "id_with_nul_bytes");
+        }
+    }
     // --- identity lengths 0..=130 (the inputs of H1 and of the KDF, 452 + |ID| bytes, take every residue modulo the block
     // size of the hash underneath)
     {
